@@ -74,13 +74,13 @@ def expected(spec: Dict, ind, rows: List[Dict]) -> Dict[str, Tuple[List, float]]
         st, kk, dd = R.stoch(h, l, x, ind.period, ind.smoothing_k, ind.slow_period)
         return {"stoch": (st, 1e-3), "k": (kk, small), "d": (dd, 2 * small)}
     if k == "TSI":
-        return {"": (R.tsi(x, ind.period, ind.smooth_period), 2.0)}
+        return {"": (R.tsi(x, ind.period, ind.smooth_period), 1e-2)}
     if k == "AROON":
         u, d = R.aroon(h, l, ind.period)
         return {"AROONU": (u, 1e-3), "AROOND": (d, 1e-3), "AROONOSC": ([None if a is None else a - b for a, b in zip(u, d)], 1e-3)}
     if k == "ADX":
         a, dp, dn = R.adx(h, l, c, ind.period, ind.period_signal)
-        return {"ADX": (a, 2.0), "DM_Plus": (dp, 1.0), "DM_Neg": (dn, 1.0)}
+        return {"ADX": (a, 1e-2), "DM_Plus": (dp, 1e-2), "DM_Neg": (dn, 1e-2)}
     if k == "OBV":
         return {"": (R.obv(c, v), 1e-6)}
     if k == "VWAP":
